@@ -74,6 +74,7 @@ from halmos.contract import (
     OP_BLOCKHASH,
     OP_BYTE,
     OP_CALL,
+    OP_CALLCODE,
     OP_CALLDATACOPY,
     OP_CALLDATALOAD,
     OP_CALLDATASIZE,
@@ -2372,11 +2373,20 @@ class SEVM:
         self.handle_insufficient_fund_case(pranked_caller, fund, message, ex, stack)
 
         def send_callvalue(condition: BoolRef | None = None) -> None:
-            # no balance update for CALLCODE which transfers to itself
             if op == OP_CALL:
                 # TODO: revert if context is static
                 # NOTE: we cannot use `to_alias` here because it could be None
                 self.transfer_value(ex, pranked_caller, to, fund, condition)
+
+            # no balance update for CALLCODE which transfers to itself,
+            # but the call only goes ahead if the balance covers the value
+            # (the insufficient case is handled by handle_insufficient_fund_case)
+            elif op == OP_CALLCODE and not (fund.is_concrete and fund.value == 0):
+                caller_balance = ex.balance_of(pranked_caller)
+                balance_cond = simplify(UGE(caller_balance, fund.as_z3()))
+                if is_false(balance_cond):
+                    raise InfeasiblePath("callcode: balance is not enough")
+                ex.path.append(balance_cond)
 
         def call_known(to: Address) -> None:
             # backup current state
